@@ -70,6 +70,7 @@ TABLE = {
     "../seeded/C14-1/patch.diff": ("contracts.c14", "visit_FuncDecl", None),
     "../seeded/C07-1/patch.diff": ("contracts.c07", "_materialize_connections", None),
     "../seeded/C01-4/patch.diff": ("contracts.c07", "_configure_decider", "operation = <"),
+    "../seeded/C12-1/patch.diff": ("contracts.c12", "_route_connection_with_relays", None),
 }
 RUNNER = r'''
 import sys, importlib
